@@ -1495,6 +1495,28 @@ class Mailbox:
         assert self.mh_sequences_lock.locked()
         self.mailbox.set_sequences({k: list(v) for k, v in seqs.items()})
 
+    ####################################################################
+    #
+    def _sequences_for_folder(self) -> Sequences:
+        """
+        The sequences to write to the folder's .mh_sequences file: our
+        in-memory sequences, plus whatever the file says about messages that
+        are in the folder but that we have not seen in a resync yet (mail
+        delivered since then, typically listed in `unseen`). Entries for
+        messages that no longer exist are dropped.
+        """
+        assert self.mh_sequences_lock.locked()
+        known = set(self.msg_keys)
+        seqs: Sequences = defaultdict(set)
+        for name, keys in self.get_sequences_from_folder().items():
+            unknown = {k for k in keys if k not in known}
+            if unknown:
+                seqs[name] = unknown
+        for name, keys in self.sequences.items():
+            if keys:
+                seqs[name] |= keys
+        return seqs
+
     ##################################################################
     #
     def get_uid_from_msg(self, msg_key: int) -> tuple[int | None, int | None]:
@@ -2112,6 +2134,15 @@ class Mailbox:
             for msg_key in to_delete:
                 self.sequences[seq].discard(msg_key)
         self.num_recent = len(self.sequences["Recent"])
+
+        # The removed messages must not linger in .mh_sequences: MH tools
+        # would still see them, and a message delivered later under a reused
+        # number would inherit their flags.
+        #
+        if to_delete:
+            async with self.mh_sequences_lock, self.mailbox.lock_folder():
+                self.set_sequences_in_folder(self._sequences_for_folder())
+
         await self.commit_to_db()
         self.optional_resync = False
 
